@@ -208,6 +208,11 @@ func VerifC10Binary() {
 	if c10IsInt(a) && c10IsInt(b) && c10Arith(op) {
 		return // VerifC10IntArith
 	}
+	if _, af := a.(Float); af || func() bool { _, bf := b.(Float); return bf }() {
+		if op == 5 || op == 16 || op == 28 {
+			return // float %, %= and divmod: VerifC15FloatMod decides them (a Go panic there is a violation too)
+		}
+	}
 	_, _ = c10Binary[op](a, b)
 	verifReach("called")
 	verifAssert(true, "the operation came back (value or error) without a Go panic, for every value of the symbolic operands on this path")
